@@ -191,6 +191,20 @@ class BaseState(ABC):
             Signal to check whether or not the operators sum up to identity,
             True by default
         """
+        from photon_weave.state.composite_envelope import CompositeEnvelope
+        from photon_weave.state.envelope import Envelope
+
+        # If the state is stored in a product state apply the channel there
+        if isinstance(self.index, int):
+            assert isinstance(self.envelope, Envelope)
+            self.envelope.apply_kraus(operators, self)
+            return
+        if isinstance(self.index, list) or isinstance(self.index, tuple):
+            assert isinstance(self.composite_envelope, CompositeEnvelope)
+            self.composite_envelope.apply_kraus(
+                operators, self, identity_check=identity_check
+            )
+            return
 
         assert isinstance(self.expansion_level, ExpansionLevel)
         while self.expansion_level < ExpansionLevel.Matrix:
